@@ -2582,6 +2582,10 @@ class AsyncIOBackend(AsyncBackend):
         while cancel_scope:
             if cancel_scope.cancel_called:
                 await sleep(0)
+
+                # Look again from the task's own scope: a shield may have been raised in
+                # the meantime, in which case the cancellation will never be delivered
+                cancel_scope = _task_states[task].cancel_scope
             elif cancel_scope.shield:
                 break
             else:
